@@ -1090,6 +1090,6 @@ func main() {
 			return 1
 		},
 		HangSeconds: 400,
-		Subs:        []mon.Sub{subSessions(), subStatelessStorm(), subStalledPeer()},
+		Subs:        []mon.Sub{subSessions(), subStatelessStorm(), subStalledPeer(), subRejections()},
 	})
 }
